@@ -7,6 +7,7 @@
 import Proofs.WF
 import Proofs.Short
 import Proofs.Base
+import Proofs.RolesNodup
 import Facts.Generated
 namespace C15
 open Esdt
@@ -145,8 +146,37 @@ example : Short w0 := by
   · show ([] : Bytes).length < two63
     decide
 
+/-! ### "role lists hold no duplicates under system-contract discipline" (Proofs/RolesNodup.lean) -/
+
+/-- FULL (one call): every call of every one of the 23 functions — any caller, any arguments — keeps every stored role list
+    free of duplicates; the only premise beyond the invariant itself is the system contract's discipline for ESDTSetRole
+    (App. C E5: what it sets is new for the account and listed once). ESDTUnSetRole erases; the hand-over erases the create
+    role at the old holder and appends it at the new one only when it is absent; no other function writes a role key
+    (`C03.roles_change_only_through`). -/
+theorem roles_have_no_duplicates_step (f : FnId) (env : Env) (c : Call) (A : Accts) (out : VMOutput) (ctx' : Ctx)
+    (hI : RolesNodup A) (hd : SetRoleDisciplined f c A) (h : exec env f c { accts := A } = .ok (out, ctx')) :
+    RolesNodup ctx'.accts :=
+  roles_nodup_step f env c A out ctx' hI hd h
+
+/-- FULL (histories): along ANY list of calls (failed calls rolled back) whose ESDTSetRole calls keep that discipline, no
+    role list of any account ever holds a duplicate -/
+theorem roles_have_no_duplicates_history (env : Env) (calls : List (FnId × Call)) (A : Accts) (hI : RolesNodup A)
+    (hd : CallsDisciplined env calls A) : RolesNodup (runCalls env calls A) :=
+  roles_nodup_history env calls A hI hd
+
+/-- the discipline is necessary: ESDTSetRole appends without looking — setting a held role again stores it twice
+    (kernel-evaluated; cf. the duplicated create role of Props/C07) -/
+def rnEnv : Env := { self := 0, nshards := 1, payable := fun _ => .yes, dns := [], nameChange := false, gas := {}, active := true }
+def rnSet : Call := { fn := fnSetESDTRole, caller := esdtSCAddress, rcv := alice, args := [tk, roleLocalMint] }
+example : RolesNodup [] := fun a t roles h => by
+  have h' : rolesOf (Accts.read [] a (roleKeyPrefix ++ t)) = some [] := rfl
+  rw [h'] at h; cases h; exact List.nodup_nil
+example : (rolesOf ((runCalls rnEnv [(.setRole, rnSet)] []).read alice (roleKeyPrefix ++ tk)) == some [roleLocalMint] &&
+    rolesOf ((runCalls rnEnv [(.setRole, rnSet), (.setRole, rnSet)] []).read alice (roleKeyPrefix ++ tk)) ==
+      some [roleLocalMint, roleLocalMint]) = true := by decide +kernel
+
 -- Not part of the Lean invariant (decided by the well-formedness oracle after every op of every generated history):
--- role lists without duplicates under system-contract discipline, counter ≥ every issued nonce (C07's per-step theorems
--- give the latter), fungible entries without metadata (token-identifier discipline).
+-- counter ≥ every issued nonce (C07's world theorem `nonces_unique_across_handovers` carries it in its invariant),
+-- fungible entries without metadata (token-identifier discipline).
 
 end C15
